@@ -61,6 +61,11 @@ func init() {
 			{ID: "C17.R10", Floor: 1, Doc: "goroutines and deferred closures started in a loop do not capture the loop's iteration variable (the module's go version gives it per-loop scope)", Run: c17r10},
 			{ID: "C17.R11", Floor: 1, Doc: "no blocking channel operation on an object's channel while holding that object's mutex when the goroutine on the other end takes the same mutex", Run: c17r11},
 			{ID: "C17.R12", Floor: 1, Doc: "the control connection that is being replaced is closed on every path", Run: c17r12},
+			{ID: "C17.R13", Floor: 1, Doc: "no else-if that tests an error is already decided false by the branch before it (shadowed error variables)", Run: func(p *Program, r *Report) {
+				if deadErrorBranches(p, r, func(fi *FuncInfo) bool { return fi.Pkg == p.Root }, "dead error branch") == 0 {
+					r.Unresolved("no else-if on an error value found")
+				}
+			}},
 		},
 	})
 }
